@@ -78,8 +78,8 @@ InvProbe == AtProbe => LET q == ProbeQ(probe) m == QuatToMat3(q) cj == QuatConj(
     /\ AllEq(QuatInv(q), cj) /\ AllEq(QuatMul(q, QuatInv(q)), QId)                               \* conjugate = inverse, q q^-1 = 1
     /\ AllEq(QuatInv(VScale(q, QI(3))), VScale(cj, QF(1, 3)))
     /\ IsRotation(m) /\ MEq(QuatToMat3H(VScale(q, QF(-7, 2))), m) /\ MEq(QuatToMat3(VNeg(q)), m)   \* orthonormal, det 1, q and -q same rotation
-    /\ \A v \in VBoxI : LET mv == MVec(m, VQ(v)) IN AllEq(QuatRotate(q, VQ(v)), mv) /\ AllEq(GlmQV(q, VQ(v)), mv)
-                                                /\ AllEq(QuatRotate(cj, VQ(v)), VMat(VQ(v), m))    \* q v q* = M v;  v * q = M^T v
+    /\ \A v \in VBoxI : LET mv == MVec(m, VQ(v)) IN AllEq(QuatRotateC(q, VQ(v)), mv) /\ AllEq(GlmQV(q, VQ(v)), mv)
+                                                /\ AllEq(QuatRotateC(cj, VQ(v)), VMat(VQ(v), m))    \* q v q* = M v;  v * q = M^T v
     /\ (QuatCastRel(m, q) \/ QuatCastRel(m, VNeg(q))) /\ ~(QuatCastRel(m, q) /\ QuatCastRel(m, VNeg(q)))   \* quat_cast model returns q or -q
     /\ \A u \in UnitVs : QIsZero(VDot(QVec(q), UQ(u))) =>
            LET r == IF QSign(q[1]) < 0 THEN VNeg(q) ELSE q IN RotBetweenRel(UQ(u), MVec(m, UQ(u)), r)
@@ -91,7 +91,7 @@ InvDual == AtProbe => LET q == ProbeQ(probe) m == QuatToMat3(q) IN \A t \in Dual
 InvAngleAxis == (AtProbe /\ probe = P1) =>
                    \A i \in 1..NA : \A u \in UnitVs : LET h == Angles[i] f == Dbl(h) q == AngleAxisQ(h, UQ(u)) ra == RotAxis3(f[1], f[2], UQ(u)) IN
                        /\ MEq(QuatToMat3(q), ra) /\ QEq(QuatNorm2(q), QOne)
-                       /\ AllEq(MVec(ra, VQ(<<1, 2, 3>>)), QuatRotate(q, VQ(<<1, 2, 3>>)))
+                       /\ AllEq(MVec(ra, VQ(<<1, 2, 3>>)), QuatRotateC(q, VQ(<<1, 2, 3>>)))
 
 TriP == << Angles[tri[1]], Angles[tri[2]], Angles[tri[3]] >>
 InEuler == ph = "euler"
@@ -114,6 +114,13 @@ InvEulerQuat == InEuler => LET t == TriP q == EulerQuat(t[1], t[2], t[3]) p == D
 
 \* ---------------------------------------------------------------- non-vacuity
 ASSUME AnglesOK
+\* the fast decoder of GlmQuat agrees with the IEEE module (normal, subnormal, zero, negative, extreme exponents, both formats)
+DecodeSamples == { <<0, 0>>, <<1, 0>>, <<65535, 127>>, <<0, 128>>, <<0, 16256>>, <<1, 16256>>, <<52429, 48716>>, <<65535, 32639>>, <<21845, 21845>>, <<0, 32768>>, <<4660, 51234>>,
+                   <<0, 0, 0, 0>>, <<1, 0, 0, 0>>, <<65535, 65535, 65535, 15>>, <<0, 0, 0, 16>>, <<0, 0, 0, 16368>>, <<1, 0, 0, 16368>>, <<39322, 39321, 39321, 49081>>,
+                   <<65535, 65535, 65535, 32751>>, <<21845, 21845, 21845, 21845>>, <<0, 0, 0, 32768>>, <<4369, 4369, 4369, 16321>>, <<32768, 32767, 32769, 49150>> }
+ASSUME \A w \in DecodeSamples : DEq(DOfW(w), ValW(FmtOfW(w), w)) /\ FinWF(w) = FinW(w)
+ASSUME ~FinWF(<<0, 32640>>) /\ ~FinWF(<<0, 65472>>) /\ ~FinWF(<<0, 0, 0, 32752>>) /\ ~FinWF(<<1, 0, 0, 65520>>)
+ASSUME \A k \in {1, 5, 16, 37} : WithinQ(QF(k, 7), QF(k + 1, 7), QF(1, 7)) /\ ~WithinQ(QF(k, 7), QF(k + 1, 7), QF(1, 8)) /\ WithinQ(QF(-k, 8), QF(k, 8), QF(k, 4)) /\ ~WithinQ(QF(-k, 8), QF(k, 8), QF(2 * k - 1, 8))
 ASSUME Cardinality(Enumerated) >= 400 /\ <<1, 1, 1, 1, 2>> \in Enumerated /\ <<0, 3, -4, 0, 5>> \in Enumerated /\ <<-2, 1, -2, 4, 5>> \in Enumerated
 ASSUME \A b \in 1..4 : \E t \in Enumerated : BiggestIndex(QuatToMat3(TupleQ(t))) = b /\ t[5] = 5
 ASSUME \E t \in Enumerated : \E u \in UnitVs : t[2] # 0 /\ t[1] # 0 /\ QIsZero(VDot(QVec(TupleQ(t)), UQ(u)))
